@@ -143,7 +143,7 @@ CFG = dict(
           "Done(); thorough also 4.5 s), launcher-program variants (stdout output after Run(), lingering 0.5 / 3.5 s before exit; thorough up "
           "to 12 s), 4 bursts of 8 overlapping launches, all under two handler names used alternately; handlers that "
           "unset the ENV_DAEMON_* markers / clear their environment before Done(); daemons that exit(3) / panic before Done() (Launch "
-          "must fail with pid 0), alone and in sequences 'failing launches followed by normal ones' run from one goroutine (2 x 12 "
+          "must return an error), alone and in sequences 'failing launches followed by normal ones' run from one goroutine (2 x 12 "
           "steps; thorough 10 x 12); plus the daemon handler "
           "variants 'stderr line before Done()', 'stderr line 100 ms after Done()', 'both' on the two extreme timings x {1, 4} "
           "(thorough: 6 delays x 4 pauses x {1,4,8} x all 4 variants, 5 rounds); one case = one Launch call with what was observed "
@@ -164,7 +164,8 @@ CFG = dict(
                  "when Launch returns, for daemon delays up to 1 s (quick) / 4.5 s (thorough). A launcher that gives up waiting after a "
                  "longer grace period is caught only statically: any select case other than the Notify channel and the waiter's channel "
                  "makes the extracted action list ill-formed (VIOLATION ... no-failing-input-found)",
-                 "GO SIDE ONLY as well: a daemon that dies before Done() (outside the theorem's premise) must make Launch fail with pid 0 "
+                 "GO SIDE ONLY as well: a daemon that dies before Done() (outside the theorem's premise) must make Launch return an error in time, with no "
+                 "daemon left running (the value returned beside the error is not judged), "
                  "and must not disturb later launches of the same process; Done() must return nil and work after the handler scrubbed its "
                  "environment; each scenario has its own marker directory, so a returned pid is compared with the marker of that launch only",
                  "GO SIDE ONLY: the launcher PROGRAM around Run() (the harness binary plays it): printing to stdout after Run() returned "
